@@ -121,10 +121,13 @@ func candidateSignatures(m *Mismatch, ev map[string]any, sc *Scenario) []string 
 		if run != "" && m.Hdr != "" && m.Info == "protected" && m.St == "run" {
 			// the code protects an entry iff the -run expression does NOT match the whole id
 			if re, err := regexp.Compile(run); err == nil {
+				// the code's rule on the pinned tree: an entry is NOT protected iff the expression
+				// matches its whole id "<name> - <n>". Only where that rule leaves the entry
+				// unprotected is the divergence a known one; an entry the rule covers must be kept.
 				if !re.MatchString(name) && re.MatchString(id) {
 					out = append(out, "K3") // matches only thanks to the " - <ordinal>" part
 				}
-				if re.MatchString(name) {
+				if re.MatchString(name) && re.MatchString(id) {
 					out = append(out, "K7") // unsplit match of a name the runner did not select
 				}
 			}
